@@ -928,7 +928,11 @@ class Simplifier(pysmt.walkers.DagWalker):
         s, i = args
         if s.is_string_constant() and i.is_int_constant():
             i_value = cast(int, i.constant_value())
-            res = cast(str, s.constant_value())[i_value:i_value + 1]
+            res = ""
+            if i_value >= 0:
+                # A negative index is out of range in SMT-LIB
+                # (it counts from the end in Python)
+                res = cast(str, s.constant_value())[i_value:i_value + 1]
             return self.manager.String(res)
         return self.manager.StrCharAt(s, i)
 
@@ -942,10 +946,15 @@ class Simplifier(pysmt.walkers.DagWalker):
     def walk_str_indexof(self, formula: FNode, args: List[FNode], **kwargs) -> FNode:
         s, t, i = args
         if s.is_string_constant() and t.is_string_constant() and i.is_int_constant():
-            idx = cast(str, s.constant_value()).find(
-                cast(str, t.constant_value()),
-                cast(int, i.constant_value()),
-            )
+            start = cast(int, i.constant_value())
+            idx = -1
+            if 0 <= start <= len(cast(str, s.constant_value())):
+                # A start position out of range gives -1 in SMT-LIB
+                # (a negative one counts from the end in Python)
+                idx = cast(str, s.constant_value()).find(
+                    cast(str, t.constant_value()),
+                    start,
+                )
             # idx = -1, if t is not found
             return self.manager.Int(idx)
         return self.manager.StrIndexOf(s, t, i)
@@ -963,8 +972,12 @@ class Simplifier(pysmt.walkers.DagWalker):
         s, i, j = args
         if s.is_string_constant() and i.is_int_constant() and j.is_int_constant():
             start_ = cast(int, i.constant_value())
-            end_ = cast(int, i.constant_value()) + cast(int, j.constant_value())
-            res = cast(str, s.constant_value())[start_:end_]
+            len_ = cast(int, j.constant_value())
+            res = ""
+            if start_ >= 0 and len_ > 0:
+                # A negative start or a non-positive length gives the
+                # empty string in SMT-LIB (they count from the end in Python)
+                res = cast(str, s.constant_value())[start_:start_ + len_]
             return self.manager.String(res)
         return self.manager.StrSubstr(s, i, j)
 
